@@ -620,5 +620,16 @@ package spg
 //@         (!noReq(pub(r), arr(r.RequireSets), off(r.RequireSets), len(r.RequireSets)) ==> res1 == entropyReq(pub(r), arr(r.RequireSets), off(r.RequireSets), len(r.RequireSets))))
 //@   ensures [C04] monotone: ctr >= old(ctr) && pos >= old(pos)
 
+//@ func NewSFFunction$1
+//@   note the separator function NewSFFunction returns: exactly sfWrap of the captured recipe (captured by value at construction; assumed valid UTF-8 and within the resource bound like every recipe)
+//@   requires [C03] utf8:  utf8ok(r.AllowChars) && utf8ok(r.ExcludeChars) &&
+//@        forall(int(k), trig(r.RequireSets[k]), 0 <= k && k < len(r.RequireSets) ==> utf8ok(r.RequireSets[k]))
+//@   requires [C13] A-RES: r.Length <= 4294967295
+//@   modifies pos, ctr, emitted
+//@   ensures [C16,C06] entropy: (res0 == "" && res1 == 0.0) ||
+//@        ((noReq(pub(r), arr(r.RequireSets), off(r.RequireSets), len(r.RequireSets)) ==> res1 == real(r.Length) * log2(real(alphaSize(pub(r), arr(r.RequireSets), off(r.RequireSets), len(r.RequireSets))))) &&
+//@         (!noReq(pub(r), arr(r.RequireSets), off(r.RequireSets), len(r.RequireSets)) ==> res1 == entropyReq(pub(r), arr(r.RequireSets), off(r.RequireSets), len(r.RequireSets))))
+//@   ensures [C04] monotone: ctr >= old(ctr) && pos >= old(pos)
+
 //@ func NewSFFunction
 //@   ensures [C16] closure: res != nil
